@@ -1,7 +1,6 @@
 import Verif.Lemmas.Await
 import Verif.Lemmas.Shared
 import Verif.Lemmas.SharedLoss
-import Verif.Gen.Timing
 
 /-! # C18 — concurrent requests on one connection: no cross-talk and no lost responses
 
